@@ -172,15 +172,24 @@ func (c *compiler) evalUserFunction(node *userFunction, args []ast.Expression) (
 	octx := c.ctx
 	defer func() { c.ctx = octx }()
 
-	c.ctx = c.ctx.New()
-	for i, p := range node.Parameters {
-		a := args[i]
-		v, err := c.evalExpression(a)
+	if len(args) < len(node.Parameters) {
+		return nil, fmt.Errorf("too few arguments (%d for %d)", len(args), len(node.Parameters))
+	}
+
+	// all arguments are evaluated in the caller's scope before any parameter is bound
+	vals := make([]interface{}, len(node.Parameters))
+	for i := range node.Parameters {
+		v, err := c.evalExpression(args[i])
 		if err != nil {
 			return nil, err
 		}
 
-		c.ctx.Set(p.Value, v)
+		vals[i] = v
+	}
+
+	c.ctx = c.ctx.New()
+	for i, p := range node.Parameters {
+		c.ctx.Set(p.Value, vals[i])
 	}
 
 	return c.evalBlockStatement(node.Block)
